@@ -122,6 +122,11 @@ func (dt *DateTime) UnmarshalJSON(data []byte) error {
 	if err != nil {
 		return err
 	}
+	if dtn.Time.Nanosecond != 0 {
+		// the published format has no fractional seconds, and they
+		// would be written back with nine digits
+		return errors.New("date time with fractional seconds not supported")
+	}
 	*dt = DateTime{dtn}
 	return nil
 }
